@@ -88,7 +88,7 @@ theorem listMin_mem {l : List TS} (h : l ≠ []) : listMin l ∈ l := by
       have := ih (by simp)
       by_cases hab : a ≤ listMin (b :: l)
       · rw [Int.min_eq_left hab]; simp
-      · rw [Int.min_eq_right (by omega)]; exact List.mem_cons_of_mem _ this
+      · rw [Int.min_eq_right (Int.le_of_not_le hab)]; exact List.mem_cons_of_mem _ this
 
 theorem listMax_mem {l : List TS} (h : l ≠ []) : listMax l ∈ l := by
   induction l with
@@ -101,7 +101,7 @@ theorem listMax_mem {l : List TS} (h : l ≠ []) : listMax l ∈ l := by
       have := ih (by simp)
       by_cases hab : listMax (b :: l) ≤ a
       · rw [Int.max_eq_left hab]; simp
-      · rw [Int.max_eq_right (by omega)]; exact List.mem_cons_of_mem _ this
+      · rw [Int.max_eq_right (Int.le_of_not_le hab)]; exact List.mem_cons_of_mem _ this
 
 /-! ### the block listing of tombstone-less sorted files, per file -/
 
@@ -200,8 +200,11 @@ theorem gapFile_of_noValues (s : Shard) (hi : s.Inv) (a e : TS) (hae : a ≤ e)
     have := hnone b' hb'
     unfold Block.overlaps at this
     simp only [Bool.or_eq_false_iff, Bool.and_eq_false_iff, decide_eq_false_iff_not] at this
-    simp only [entryOf, Spec.C38.overlaps, Bool.not_eq_true', Bool.and_eq_false_iff, decide_eq_false_iff_not]
-    unfold TS at *
-    omega
+    simp only [entryOf, Spec.C38.overlaps, Bool.not_eq_true', Bool.and_eq_false_iff]
+    by_cases h1 : b'.lo ≤ e
+    · by_cases h2 : b'.hi ≥ a
+      · exfalso; unfold TS at *; omega
+      · right; exact decide_eq_false h2
+    · left; exact decide_eq_false h1
 
 end Influx.Backup
